@@ -13,5 +13,6 @@ package config
 //@   ensures true
 
 //@ func (c *BaseProxyConfig) GetReadTimeout
-//@   property C01
-//@   ensures true
+//@   property C01 C18
+//@   ensures c.ReadTimeout != 0 ==> res == c.ReadTimeout
+//@   ensures c.ReadTimeout == 0 ==> res == DefaultReadTimeout
